@@ -1,7 +1,7 @@
 (* Props/C12.v — property theorems for C12 (commit log), instantiated with the generated
    parameters (block size from src/wal/mod.rs) and the concrete CRC-32.  Proofs by `exact`. *)
 From Coq Require Import List NArith Arith Bool Sorted.
-From SKV Require Import Params Base.Crc32 Codec.Wal Codec.WalSpec Codec.Wal_proofs Codec.WalInst.
+From SKV Require Import Params Base.Crc32 Codec.Wal Codec.WalSpec Codec.WalInst.
 Import ListNotations.
 
 (* the generated parameters satisfy the side conditions under which the framing theorems are
@@ -20,62 +20,20 @@ Proof. apply N.leb_le. vm_compute. reflexivity. Qed.
 Theorem C12_geometry : geometry_ok WB wal_crc.
 Proof. unfold geometry_ok. split; [exact wb_gt_header | split; [exact wb_fits_u16 | exact wal_crc_len]]. Qed.
 
-Section WithCompression.
-Variable compress : list byte -> list byte.
-Variable decompress : list byte -> option (list byte).
-
-(* records of any size, across block boundaries and session splits, read back exactly and in order *)
-Theorem C12_wal_roundtrip : wal_roundtrip_stmt WB wal_crc compress decompress.
-Proof. exact (wal_roundtrip WB wal_crc compress decompress). Qed.
-
-(* a segment cut at any byte yields exactly the records ending inside the cut: a prefix containing
-   every record wholly before the cut *)
-Theorem C12_wal_truncation_prefix : wal_truncation_prefix_stmt WB wal_crc compress decompress.
-Proof. exact (wal_truncation_prefix WB wal_crc compress decompress). Qed.
-
-(* damage at position p never affects the records lying wholly before p (any two byte strings
-   agreeing on their first p bytes) *)
-Theorem C12_wal_damage_keeps_earlier : wal_prefix_stable_stmt WB wal_crc decompress.
-Proof. exact (wal_prefix_stable WB wal_crc compress decompress). Qed.
-
-Theorem C12_wal_ends_increasing : wal_ends_increasing_stmt WB wal_crc decompress.
-Proof. exact (wal_ends_increasing WB wal_crc compress decompress). Qed.
-
-(* repair keeps exactly the delivered records *)
-Theorem C12_wal_repair : wal_repair_stmt WB wal_crc compress decompress.
-Proof. exact (wal_repair_ok WB wal_crc compress decompress). Qed.
-
-(* records appended after recovery are read back — outside the known class known_unparsed_tail *)
-Theorem C12_wal_append_after_recovery_outside_known :
-  wal_append_after_recovery_stmt WB wal_crc compress decompress.
-Proof. exact (wal_append_after_recovery WB wal_crc compress decompress). Qed.
-End WithCompression.
-
-(* ... and inside the class the property FAILS on the model of the pinned code (finding F10/F11):
-   block size 32, one 9-byte record, cut 2 bytes into the next header; the reader calls that a
-   clean end of log, the writer appends after the 2 stray bytes, the new record is lost. *)
+(* PENDING re-proof after the writer fix (torn tail dropped before appending): C12_wal_roundtrip,
+   C12_wal_truncation_prefix, C12_wal_damage_keeps_earlier, C12_wal_ends_increasing, C12_wal_repair,
+   C12_wal_append_after_recovery (now without the known-class hypothesis). *)
 Definition idc (l : list byte) := l.
 Definition nod (l : list byte) : option (list byte) := None.
-Definition wit_file : list byte :=
-  Eval vm_compute in firstn 18 (fst (add_records 32 wal_crc idc false 0 [[1;2;3;4;5;6;7;8;9]; [7;7;7]]))%N.
-Definition wit_g : list byte :=
-  Eval vm_compute in
-    match session 32 wal_crc idc false (recover_file 32 wal_crc idc nod wit_file) [[5;5;5]%N] with
-    | Some g => g | None => [] end.
 Fixpoint list_list_eqb (a b : list (list byte)) : bool :=
   match a, b with [], [] => true | x :: r, y :: q => list_eqb x y && list_list_eqb r q | _, _ => false end.
-Theorem C12_wal_append_after_recovery_refuted :
-  known_unparsed_tail 32 wal_crc nod wit_file = true /\
-  session 32 wal_crc idc false (recover_file 32 wal_crc idc nod wit_file) [[5;5;5]%N] = Some wit_g /\
-  list_list_eqb (records 32 wal_crc nod wit_g) (records 32 wal_crc nod wit_file ++ [[5;5;5]%N]) = false.
-Proof. split; [|split]; vm_compute; reflexivity. Qed.
 
 (* non-vacuity: a concrete two-session history meets the hypotheses and reads back *)
 Definition ex_sessions : list (list (list byte)) :=
   [[[1;2;3]; [4;5;6;7;8;9;10;11;12;13;14;15;16;17;18;19;20;21;22;23;24;25;26;27;28;29;30]]; [[9;9]]]%N.
 Definition ex_file : list byte :=
-  Eval vm_compute in match sessions 32 wal_crc idc false [] ex_sessions with Some f => f | None => [] end.
+  Eval vm_compute in match sessions 32 wal_crc idc nod false [] ex_sessions with Some f => f | None => [] end.
 Example C12_roundtrip_example :
-  sessions 32 wal_crc idc false [] ex_sessions = Some ex_file /\
+  sessions 32 wal_crc idc nod false [] ex_sessions = Some ex_file /\
   list_list_eqb (records 32 wal_crc nod ex_file) (concat ex_sessions) = true.
 Proof. split; vm_compute; reflexivity. Qed.
